@@ -1,6 +1,7 @@
 (** Soundness (and completeness where it holds) of the monitors of [Monitors.v]. *)
 From Coq Require Import Sorted Lia.
-From SA Require Import Model Monitors.
+From SA Require Import Model.
+From SA.Mon Require Import C09.
 From SA.Proofs Require Import Reach InvReg.
 Local Open Scope list_scope.
 
